@@ -5,7 +5,7 @@
    discipline of the method bodies; table generated from the source in gen/GenOrderFlow.v). *)
 From Coq Require Import ZArith List Bool Arith Lia Permutation Sorted.
 From Coq Require Import String.
-From PB Require Import lib.Perm lib.PermProofs C02.Model C02.Proofs C02.Proofs2D C02.Wrapper2D C02.OptModel C02.OptProofs C02.OrderFlow C02.OrderFlowProofs C02.Sites gen.GenOrderFlow.
+From PB Require Import lib.Perm lib.PermProofs C02.Model C02.Proofs C02.Proofs2D C02.Wrapper2D C02.WrapperG C02.OptModel C02.OptProofs C02.OrderFlow C02.OrderFlowProofs C02.Sites gen.GenOrderFlow.
 Import ListNotations.
 Close Scope Z_scope.
 Open Scope string_scope.
@@ -62,10 +62,13 @@ Print Assumptions C02_determine_sorts.
 (* THE 1-D EQUIVARIANCE.  For pairwise distinct x, ANY permutation pi, ANY method body that is a
    function of the sorted x, the sorted data and the sorted optional per-point input and that
    returns per-point arrays:  the wrapper applied to consistently permuted inputs returns the
-   correspondingly permuted baseline and [sort_keys] parameters. *)
+   correspondingly permuted baseline and [sort_keys] parameters.  A sort_keys entry is a list of N
+   ROWS of an arbitrary type E -- shape (N,), (N, k) (e.g. loess' 'coef'), ... -- and
+   _return_results indexes the leading axis of every entry that is present, whatever its number of
+   dimensions. *)
 Theorem C02_wrapper_equivariant :
-  forall (D : Type) (d0 : D)
-         (body : list Z -> list D -> option (list D) -> list D * list (list D)),
+  forall (D E : Type) (d0 : D) (e0 : E)
+         (body : list Z -> list D -> option (list D) -> list D * list (list E)),
     (forall xs ys ws, length ys = length xs ->
                       match ws with None => True | Some w' => length w' = length xs end ->
                       length (fst (body xs ys ws)) = length xs /\
@@ -74,10 +77,10 @@ Theorem C02_wrapper_equivariant :
     NoDup x -> length y = length x ->
     match w with None => True | Some w' => length w' = length x end ->
     Permutation pi (seq 0 (length x)) ->
-    wrapper D d0 body (gather 0%Z x pi) (gather d0 y pi) (option_map (fun w' => gather d0 w' pi) w)
-    = permute_out D d0 pi (wrapper D d0 body x y w).
+    wrapperG D E d0 e0 body (gather 0%Z x pi) (gather d0 y pi) (option_map (fun w' => gather d0 w' pi) w)
+    = permute_outG D E d0 e0 pi (wrapperG D E d0 e0 body x y w).
 Proof.
-  intros D d0 body Hlen x y w pi. exact (wrapper_equivariant D d0 body Hlen x y w pi).
+  intros D E d0 e0 body Hlen x y w pi. exact (wrapperG_equivariant D E d0 e0 body Hlen x y w pi).
 Qed.
 Print Assumptions C02_wrapper_equivariant.
 
@@ -98,6 +101,22 @@ Proof.
     apply perm_skip. apply perm_swap.
   - vm_compute. discriminate.
 Qed.
+
+(* the wrappers with entries of the element type of the baseline (used by the optimizer models)
+   are the instances E = D *)
+Theorem C02_wrapper_instances :
+  (forall D d0 body x y w, wrapper D d0 body x y w = wrapperG D D d0 d0 body x y w) /\
+  (forall D d0 body2 x z y w, wrapper2 D d0 body2 x z y w = wrapper2G D D d0 d0 body2 x z y w).
+Proof. split; reflexivity. Qed.
+Print Assumptions C02_wrapper_instances.
+
+(* entries of shape (N,) (rows of one number) and (N, 2) side by side *)
+Example C02_wrapper_rows_nonvacuous :
+  let body := fun (xs ys : list Z) (_ : option (list Z)) =>
+                (ys, [map (fun v => [v]) ys; map (fun k => [Z.of_nat k; nth k xs 0%Z]) (seq 0 (length xs))]) in
+  wrapperG Z (list Z) 0%Z [] body [30; 10; 20]%Z [3; 1; 2]%Z None
+  = ([3; 1; 2]%Z, [[[3]; [1]; [2]]%Z; [[2; 30]; [0; 10]; [1; 20]]%Z]).
+Proof. vm_compute. reflexivity. Qed.
 
 (* optimize_extended_range (optimizers.py:322-339): the extended sort order is a permutation of the
    extended index set and sorts the extended data -- the added parts stay where they are, the
@@ -135,25 +154,26 @@ Print Assumptions C02_inverse_2d.
    _return_results un-sorts the baseline and every sort_keys entry.  For pairwise distinct x and
    pairwise distinct z, INDEPENDENT permutations px, pz (either may be the identity: x only /
    z only), any body that maps n x m arrays to n x m arrays:  permuting x, z, the data and the
-   optional per-point input consistently permutes every output the same way. *)
+   optional per-point input consistently permutes every output the same way.  sort_keys entries
+   are M x N arrays of rows of an arbitrary type E: shape (M, N), (M, N, k), ... *)
 Theorem C02_wrapper2_equivariant :
-  forall (D : Type) (d0 : D)
+  forall (D E : Type) (d0 : D) (e0 : E)
          (body2 : list Z -> list Z -> list (list D) -> option (list (list D))
-                  -> list (list D) * list (list (list D))),
+                  -> list (list D) * list (list (list E))),
     (forall xs zs ys ws,
         rect D ys (length xs) (length zs) ->
         match ws with None => True | Some w' => rect D w' (length xs) (length zs) end ->
         rect D (fst (body2 xs zs ys ws)) (length xs) (length zs) /\
-        Forall (fun p => rect D p (length xs) (length zs)) (snd (body2 xs zs ys ws))) ->
+        Forall (fun p => rect E p (length xs) (length zs)) (snd (body2 xs zs ys ws))) ->
   forall (x z : list Z) (y : list (list D)) (w : option (list (list D))) (px pz : list nat),
     NoDup x -> NoDup z -> rect D y (length x) (length z) ->
     match w with None => True | Some w' => rect D w' (length x) (length z) end ->
     Permutation px (seq 0 (length x)) -> Permutation pz (seq 0 (length z)) ->
-    wrapper2 D d0 body2 (gather 0%Z x px) (gather 0%Z z pz) (gather2 D d0 y px pz)
-             (option_map (fun w' => gather2 D d0 w' px pz) w)
-    = permute_out2 D d0 px pz (wrapper2 D d0 body2 x z y w).
+    wrapper2G D E d0 e0 body2 (gather 0%Z x px) (gather 0%Z z pz) (gather2 D d0 y px pz)
+              (option_map (fun w' => gather2 D d0 w' px pz) w)
+    = permute_out2G D E d0 e0 px pz (wrapper2G D E d0 e0 body2 x z y w).
 Proof.
-  intros D d0 body2 H x z y w px pz. exact (wrapper2_equivariant D d0 body2 H x z y w px pz).
+  intros D E d0 e0 body2 H x z y w px pz. exact (wrapper2G_equivariant D E d0 e0 body2 H x z y w px pz).
 Qed.
 Print Assumptions C02_wrapper2_equivariant.
 
